@@ -163,24 +163,25 @@ static carquet_status_t ensure_capacity(carquet_column_index_builder_t* builder)
 
     int32_t new_cap = builder->capacity * 2;
 
+    /* Each array that could be grown has moved: keep its new address even
+     * if a later realloc fails, or the builder would point to freed memory.
+     * The capacity only changes once all arrays have grown. */
+    bool failed = false;
     int64_t* new_null_counts = realloc(builder->null_counts, new_cap * sizeof(int64_t));
+    if (new_null_counts) builder->null_counts = new_null_counts; else failed = true;
     uint8_t** new_min_values = realloc(builder->min_values, new_cap * sizeof(uint8_t*));
+    if (new_min_values) builder->min_values = new_min_values; else failed = true;
     int32_t* new_min_lens = realloc(builder->min_value_lens, new_cap * sizeof(int32_t));
+    if (new_min_lens) builder->min_value_lens = new_min_lens; else failed = true;
     uint8_t** new_max_values = realloc(builder->max_values, new_cap * sizeof(uint8_t*));
+    if (new_max_values) builder->max_values = new_max_values; else failed = true;
     int32_t* new_max_lens = realloc(builder->max_value_lens, new_cap * sizeof(int32_t));
+    if (new_max_lens) builder->max_value_lens = new_max_lens; else failed = true;
     bool* new_null_pages = realloc(builder->null_pages, new_cap * sizeof(bool));
-
-    if (!new_null_counts || !new_min_values || !new_max_values ||
-        !new_min_lens || !new_max_lens || !new_null_pages) {
+    if (new_null_pages) builder->null_pages = new_null_pages; else failed = true;
+    if (failed) {
         return CARQUET_ERROR_OUT_OF_MEMORY;
     }
-
-    builder->null_counts = new_null_counts;
-    builder->min_values = new_min_values;
-    builder->min_value_lens = new_min_lens;
-    builder->max_values = new_max_values;
-    builder->max_value_lens = new_max_lens;
-    builder->null_pages = new_null_pages;
     builder->capacity = new_cap;
 
     /* Initialize new entries */
